@@ -6,7 +6,11 @@ package verifcheck
 //
 //	=   exact match for strings, equality for numbers, booleans by their JSON spelling
 //	    (the documentation's own example compares a boolean field with the quoted literal 'true'),
-//	    membership for list-valued fields
+//	    membership for list-valued fields: the field matches when one of its elements does; a string
+//	    element like a string field, a boolean element like a boolean field (JSON spelling), a numeric
+//	    element when the literal is that number in its plain decimal spelling (the list [10, 20] matches
+//	    sizes = 20). Whether another spelling of the same number (20.0, 2e1) or a QUOTED numeric literal
+//	    also selects a numeric element is not documented: undecided.
 //	!=  complement of = over the LIVE ids (ids lacking the field match)
 //	< <= > >=   numeric comparisons on number-valued fields
 //	AND / OR    case-insensitive keywords, OR binds weaker than AND
@@ -18,9 +22,13 @@ package verifcheck
 //     true / false literal (e.g. zip:"10" versus zip=10; s:"true" versus s=true), also for ranges;
 //   - number field versus a QUOTED numeric literal (n:10 versus n='10').
 //
+//   - numeric list element versus an alternative spelling of the same number or a quoted numeric literal;
+//   - list with a numeric element that satisfies a range clause (ranges are documented for number-valued fields).
+//
 // Everything else is two-valued (must == may).
 
 import (
+	"math"
 	"sort"
 	"strconv"
 )
@@ -62,6 +70,25 @@ func c08EqString(s string, c c08Clause) (must, may bool) {
 	return false, false
 }
 
+// c08EqElem: one list element against the literal of an = / != clause.
+func c08EqElem(e any, c c08Clause) (must, may bool) {
+	switch x := e.(type) {
+	case string:
+		return c08EqString(x, c)
+	case float64:
+		if f, ok := c08ParseNum(c.Lit); ok && f == x {
+			// plain decimal spelling; outside [1e-4, 1e21) the renderings of a float64 differ: left undecided
+			plain := x == 0 || (math.Abs(x) >= 1e-4 && math.Abs(x) < 1e21)
+			return plain && c.Q == "" && c.Lit == strconv.FormatFloat(x, 'f', -1, 64), true
+		}
+	case bool:
+		if (x && c.Lit == "true") || (!x && c.Lit == "false") {
+			return true, true
+		}
+	}
+	return false, false
+}
+
 func c08EvalClause(meta map[string]any, c c08Clause) (must, may bool) {
 	v, present := meta[c.Key]
 	litNum, litIsNum := c08ParseNum(c.Lit)
@@ -82,10 +109,8 @@ func c08EvalClause(meta map[string]any, c c08Clause) (must, may bool) {
 				}
 			case []any:
 				for _, e := range x {
-					if s, ok := e.(string); ok {
-						m1, y1 := c08EqString(s, c)
-						em, ey = em || m1, ey || y1
-					}
+					m1, y1 := c08EqElem(e, c)
+					em, ey = em || m1, ey || y1
 				}
 			}
 		}
@@ -111,6 +136,9 @@ func c08EvalClause(meta map[string]any, c c08Clause) (must, may bool) {
 					if f, ok := c08ParseNum(s); ok && c08Cmp(c.Op, f, litNum) {
 						return false, true
 					}
+				}
+				if f, ok := e.(float64); ok && c08Cmp(c.Op, f, litNum) {
+					return false, true // numeric list element under a range: undecided
 				}
 			}
 		}
